@@ -408,6 +408,8 @@ class SynthBase(testtools.TestCase):
                 self.expectThat("valueé", SynthMatcher(a, env))
             elif op == "expectok":
                 self.expectThat("valueé", Equals("valueé"))  # a matching expectation changes nothing
+            elif op == "sibling":
+                _run_sibling(self)
             elif op == "patch":
                 self.patch(env.obj, a, "patched")
             elif op == "useFixture":
@@ -457,6 +459,23 @@ class SynthBase(testtools.TestCase):
             env.anomalies.append("expectFailure returned")
         else:
             raise make_exc(self, env, unit, kind)
+
+
+def _run_sibling(case):
+    """Run a sibling of `case` (clone_test_with_new_id = a shallow copy of the constructed test, what scenario / attr
+    multiplication produces) to completion, right now, against a result of its own.  The sibling has a trivial program
+    of its own (one cleanup, success); its run must not touch `case`."""
+    sib = testtools.clone_test_with_new_id(case, case.id() + "-sibling")
+    log = []
+    sib.setUp = lambda: testtools.TestCase.setUp(sib)
+    sib.tearDown = lambda: testtools.TestCase.tearDown(sib)
+
+    def body():
+        sib.addCleanup(log.append, "sibling-cleanup")
+        log.append("sibling-body")
+
+    setattr(sib, sib._testMethodName, body)
+    sib.run(testtools.TestResult())
 
 
 class SynthPlain(SynthBase):
